@@ -221,6 +221,8 @@ example : findTerminalGaps 2 [[some 0, none], [some 1, none], [some 2, none]] = 
 example : identity [[0, 1, 2], [0, 2]] [[some 0, some 0], [some 1, none], [some 2, some 1]] .notTerminal = .ok (2, 3) := by decide
 example : score [[1, 0], [0, 1]] (-5) (-2) true [[0, 1, 1, 0], [0, 0]] [[some 0, some 0], [some 1, none], [some 2, none], [some 3, some 1]]
     = .ok (-5) := by decide
+-- orientation of the matrix: row index = code of the earlier alignment row (not symmetric matrices, two alphabets)
+example : score [[0, 5, 1], [7, 0, 2]] (-5) (-2) true [[0], [1]] [[some 0, some 0]] = .ok 5 := by decide
 example : gapRuns [some 0, none, none, some 1, none] = [2, 1] := by decide
 example : runCost (-5) (-2) 2 = -7 := by decide
 
